@@ -60,6 +60,10 @@ func (c *Codec) Decode(src *sonic.ByteBuffer) ([]byte, error) {
 	c.resetDecode()
 
 	if err := src.PrepareRead(HeaderLen); err != nil {
+		if err == sonicerrors.ErrNeedMore {
+			// Make sure the caller can read more bytes into the buffer.
+			src.Reserve(HeaderLen)
+		}
 		return nil, err
 	}
 
